@@ -4,6 +4,8 @@
 //! after every event the runtime is polled to quiescence and the observable effects of that event are
 //! printed: wire frames (in order), completed front-end futures (sorted by handle), a disconnect class,
 //! the result of polling a subscription stream; finally the four table sizes (hook H1).
+//! `hold` .. `unhold`: the front-end futures of call / batch / sub tasks are not polled in between (their completions
+//! are reported at `unhold`); a request must already be on the wire when `hold` is issued.
 use jrv::*;
 use jsonrpsee::core::client::{
 	BatchResponse, ClientBuilder, ClientT, Error, IdKind, ReceivedMessage, Subscription, SubscriptionClientT,
@@ -140,6 +142,31 @@ enum Done {
 	Sub(Result<Sub, Error>),
 }
 
+/// `hold` / `unhold`: while `held` is set the front-end futures of `call`, `batch` and `sub` tasks are not polled
+/// (the caller is busy elsewhere); `unhold` clears the flag and wakes them all.
+struct HoldState {
+	held: AtomicBool,
+	wakers: Mutex<Vec<std::task::Waker>>,
+}
+struct Holdable<F> {
+	inner: std::pin::Pin<Box<F>>,
+	st: Arc<HoldState>,
+}
+fn holdable<F: Future>(st: &Arc<HoldState>, f: F) -> Holdable<F> {
+	Holdable { inner: Box::pin(f), st: st.clone() }
+}
+impl<F: Future> Future for Holdable<F> {
+	type Output = F::Output;
+	fn poll(self: std::pin::Pin<&mut Self>, cx: &mut std::task::Context<'_>) -> std::task::Poll<F::Output> {
+		let this = self.get_mut();
+		if this.st.held.load(Ordering::SeqCst) {
+			this.st.wakers.lock().unwrap().push(cx.waker().clone());
+			return std::task::Poll::Pending;
+		}
+		this.inner.as_mut().poll(cx)
+	}
+}
+
 async fn settle() {
 	for _ in 0..96 {
 		tokio::task::yield_now().await;
@@ -177,6 +204,7 @@ async fn run_case(line: &str) -> String {
 			.build_with_tokio(sender, receiver),
 	);
 
+	let hold = Arc::new(HoldState { held: AtomicBool::new(false), wakers: Mutex::new(Vec::new()) });
 	let (done_tx, mut done_rx) = mpsc::unbounded_channel::<(u64, Done)>();
 	let mut tasks: BTreeMap<u64, JoinHandle<()>> = BTreeMap::new();
 	let mut subs: BTreeMap<u64, Sub> = BTreeMap::new();
@@ -197,10 +225,11 @@ async fn run_case(line: &str) -> String {
 				let p = if t[3] == "-" { None } else { Some(unhex(t[3])) };
 				let c = client.clone();
 				let tx = done_tx.clone();
+				let hs = hold.clone();
 				tasks.insert(
 					h,
 					tokio::spawn(async move {
-						let r: Result<Box<RawValue>, Error> = c.request(&m, RawParams(p)).await;
+						let r: Result<Box<RawValue>, Error> = holdable(&hs, c.request(&m, RawParams(p))).await;
 						let s = match r {
 							Ok(v) => format!("ok:{}", hex(v.get().as_bytes())),
 							Err(e) => err_class(&e),
@@ -229,6 +258,7 @@ async fn run_case(line: &str) -> String {
 				}
 				let c = client.clone();
 				let tx = done_tx.clone();
+				let hs = hold.clone();
 				tasks.insert(
 					h,
 					tokio::spawn(async move {
@@ -236,7 +266,7 @@ async fn run_case(line: &str) -> String {
 						for (m, p) in entries.iter() {
 							b.insert(m.as_str(), RawParams(p.clone())).unwrap();
 						}
-						let r: Result<BatchResponse<Box<RawValue>>, Error> = c.batch_request(b).await;
+						let r: Result<BatchResponse<Box<RawValue>>, Error> = holdable(&hs, c.batch_request(b)).await;
 						let s = match r {
 							Ok(br) => {
 								let (ok, failed) = (br.num_successful_calls(), br.num_failed_calls());
@@ -267,10 +297,11 @@ async fn run_case(line: &str) -> String {
 				let p = if t[4] == "-" { None } else { Some(unhex(t[4])) };
 				let c = client.clone();
 				let tx = done_tx.clone();
+				let hs = hold.clone();
 				tasks.insert(
 					h,
 					tokio::spawn(async move {
-						let r: Result<Sub, Error> = c.subscribe(&sm, RawParams(p), &um).await;
+						let r: Result<Sub, Error> = holdable(&hs, c.subscribe(&sm, RawParams(p), &um)).await;
 						let _ = tx.send((h, Done::Sub(r)));
 					}),
 				);
@@ -343,6 +374,15 @@ async fn run_case(line: &str) -> String {
 			}
 			"failsend" => {
 				failnext.store(true, Ordering::SeqCst);
+			}
+			"hold" => {
+				hold.held.store(true, Ordering::SeqCst);
+			}
+			"unhold" => {
+				hold.held.store(false, Ordering::SeqCst);
+				for w in hold.wakers.lock().unwrap().drain(..) {
+					w.wake();
+				}
 			}
 			_ => return format!("?bad-event {}", t[0]),
 		}
